@@ -202,6 +202,8 @@ class PureEval:
             if isinstance(c, DictCell): return SDictV(c.kty, c.vty, c.dom, c.val)
             if isinstance(c, ListCell): return SSeq(c.elem, c.n, c.arr)
             if isinstance(c, SetCell): return SSetV(c.elem, c.mem)
+        if isinstance(v, SSubSet):
+            return SSetV(v.elem, self.st.cell(v.ref).val[v.key])
         return v
 
     def ev(self, e) -> SV:
@@ -262,6 +264,8 @@ class PureEval:
         o = self.ev(e.value)
         if isinstance(e.slice, ast.Slice): raise Unsupported("spec: slice")
         i = self.ev(e.slice)
+        if isinstance(o, STuple):
+            return self.snap(o.items[z3.simplify(i.t).as_long()])
         if isinstance(o, SDictV):
             kt = ops.key_term(o.kty, i)
             if kt is None: raise Unsupported("spec: dict key of another type")
@@ -379,6 +383,8 @@ class PureEval:
             if n == "len":
                 v = args[0]
                 if isinstance(v, SSeq): return I(v.n)
+                if isinstance(v, SSetV): return I(ops.card(v.mem)[0])
+                if isinstance(v, SDictV): return I(ops.card(v.dom)[0])
                 raise Unsupported("spec: len of a non-sequence")
             if n == "keys": return SSetV(args[0].kty, args[0].dom)
             if n == "vals":
@@ -397,6 +403,8 @@ class PureEval:
             if n == "append": return ops.seq_append(args[0], term_of(args[1]))
             if n == "alive": return B(self.st.alive[args[0].t])
             if n == "warned": return B(self.st.warned)
+            if n == "always_passed":
+                return B(self.st.ghost.get(f"passed:{e.args[0].value}:{e.args[1].value}", z3.BoolVal(True)))
             if n == "last": return B(self.st.ghost.get("last:" + e.args[0].value, z3.BoolVal(False)))
             if n == "count": return I(self.st.ghost.get("count:" + e.args[0].value, z3.IntVal(0)))
             if n == "tuple" or n == "list": return args[0] if args else EmptySeqP()
@@ -408,6 +416,8 @@ class PureEval:
                 return B(z3.ForAll([i], z3.Implies(rng, sq.arr[i])) if n == "all" else z3.Exists([i], z3.And(rng, sq.arr[i])))
             if n == "isinstance":
                 return B(self.ex.isinstance_(args[0], SClosure("name", e.args[1].id), self.st))
+            if n == "param":
+                return self.snap(self.env["__entry__"].env[e.args[0].value])
             if n == "is_fresh":
                 v = self.env.get(e.args[0].id)
                 if not isinstance(v, SRef): return B(False)
